@@ -13,6 +13,7 @@ VROOT = "/usr/share/verilator"
 CXX = os.environ.get("VERIF_CXX", "g++")
 SAN = os.environ.get("VERIF_SAN", "")          # "asan" selects the sanitizer build
 JOBS = int(os.environ.get("VERIF_JOBS", "16"))
+COV = os.environ.get("VERIF_COV", "") == "1"   # gcov instrumentation of the /repo sources (bin/reach)
 
 BASE_FLAGS = ["-std=c++17", "-DNDEBUG", "-DHEX_VERIF", "-I" + REPO, "-I" + VERIF,
               "-I" + VROOT + "/include", "-I" + VROOT + "/include/vltstd",
@@ -23,6 +24,9 @@ if SAN == "asan":
     LINK_SAN = ["-fsanitize=address,undefined"]
 else:
     LINK_SAN = []
+if COV:
+    BASE_FLAGS += ["--coverage", "-DVERIF_COV"]
+    LINK_SAN += ["--coverage"]
 
 def sha(*parts):
     h = hashlib.sha256()
@@ -148,7 +152,7 @@ class Builder:
 
     def link(self, name, objs, libs=()):
         self.flush()
-        key = sha("link", name, " ".join(sorted(objs)), " ".join(libs), SAN)
+        key = sha("link", name, " ".join(sorted(objs)), " ".join(libs), SAN, "cov" if COV else "")
         exe = os.path.join(BUILD, "bin", "%s-%s" % (name, key))
         if not os.path.exists(exe):
             tmp = exe + ".tmp%d" % os.getpid()
